@@ -4371,7 +4371,9 @@ class NetCDFRead(IORead):
                 field_ncvar,
                 coord_ncvar,
                 formula_terms,
-                z_ncdim=g["variable_dimensions"][coord_ncvar][0],
+                # A scalar coordinate variable has no dimension: no
+                # formula term can then span "the vertical dimension"
+                z_ncdim=(g["variable_dimensions"][coord_ncvar] or (None,))[0],
             )
 
             ok = True
